@@ -641,6 +641,7 @@ impl Monitor for C05 {
             ("iplevel", tier.pick(1000000, 100000000)),
             ("single", tier.pick(1000000, 100000000)),
             ("corpus", tier.pick(400_000, 8_000_000)),
+            ("big", tier.pick(30_000, 1_500_000)),
         ]
     }
 
@@ -657,9 +658,14 @@ impl Monitor for C05 {
                 }
                 None => rep.selfcheck_fail("corpus file missing".into()),
             },
-            "clean" | "hostile" => {
-                let o = if engine == "clean" { GenOpts::clean() } else { GenOpts::hostile() };
+            "clean" | "hostile" | "big" => {
+                let o = if engine == "clean" || (engine == "big" && rng.bool()) { GenOpts::clean() } else { GenOpts::hostile() };
+                gen::set_big(engine == "big");
                 let case = gen::gen_case(rng, &o);
+                gen::set_big(false);
+                if engine == "big" && case.bytes.len() > 60_000 {
+                    rep.count("big_cases");
+                }
                 self.pair(rep, &case, Family::Sliced, Family::LaxSliced);
                 self.pair(rep, &case, Family::Headers, Family::LaxHeaders);
             }
